@@ -633,6 +633,7 @@ def run(tier: str, seed: int) -> dict:
 
 
 def replay(case: dict) -> dict:
+    case = case.get('input', case)      # the violation as reported (./check --replay) or its input
     sc.install()
     patch_injection_points()
     if case.get('kind') == 'crash':
